@@ -518,6 +518,17 @@ class RP:
             return ('paren', e)
         if k == 'op' and v == '{':
             return self.block()
+        if k == 'op' and v == '[':
+            self.i += 1
+            items = []
+            while not self.at_op(']'):
+                items.append(self.expr())
+                if self.at_op(';'):
+                    self.fail('array repeat expression')
+                if not self.maybe('op', ','):
+                    break
+            self.eat('op', ']')
+            return ('array', items)
         if k == 'op' and v in ('|', '||'):
             params = []
             if v == '||':
